@@ -95,15 +95,15 @@ class Ctx:
                     raise Machinery("vacuity: action %s of %s never taken" % (a, module))
         return r
 
-    def mc_expect_violation(self, module, cfg, invariant, timeout=600):
+    def mc_expect_violation(self, module, cfg, invariant, timeout=600, deadlock=True):
         """Sensitivity: a deliberately broken variant of the algorithm layer (a named deviation) MUST be rejected by TLC."""
-        r = tlc.run(module, cfg, workers=4, timeout=timeout)
-        if invariant not in r.invariant_violated and not (invariant == "PROPERTY" and r.property_violated):
+        r = tlc.run(module, cfg, workers=4, timeout=timeout, deadlock=deadlock)
+        if invariant not in r.invariant_violated and invariant not in r.action_violated and not (invariant == "PROPERTY" and r.property_violated):
             raise Machinery("sensitivity: %s/%s was expected to violate %s but did not" % (module, cfg, invariant))
         self.notes.setdefault("deviations_rejected_by_tlc", []).append("%s/%s violates %s" % (module, cfg, invariant))
         return r
 
-    def gen(self, module, cfg=None, name="cases", env=None, timeout=1800):
+    def gen(self, module, cfg=None, name="cases", env=None, timeout=1800, seed=None):
         """Run a generator module; returns the list of cases it wrote (ndjson)."""
         cfg = cfg or module + ".cfg"
         out = os.path.join(self.work, name + ".ndjson")
@@ -111,7 +111,7 @@ class Ctx:
             os.remove(out)
         e = {"OUT": out}
         e.update(env or {})
-        r = tlc.run(module, cfg, workers=1, timeout=timeout, deadlock=False, env=e)
+        r = tlc.run(module, cfg, workers=1, timeout=timeout, deadlock=False, env=e, seed=seed)
         if "Error:" in r.out or not os.path.exists(out):
             raise Machinery("generator %s/%s failed:\n%s" % (module, cfg, "\n".join(r.out.splitlines()[-40:])))
         self._account(r, module, cfg, "generate")
